@@ -558,7 +558,7 @@ func TestC19(t *testing.T) {
 		"unsigned values are restricted to the int64 range and NaN is excluded, as the property states",
 		"the reference order is float64 promotion when a float is involved and int64 comparison otherwise (the documented arithmetic)")
 	defer col.Flush()
-	check(t, 0, budget(6000, 400000), func(rt *rapid.T) {
+	check(t, 0, budget(40000, 600000), func(rt *rapid.T) {
 		c := genC19(rt)
 		key := gastKey(c)
 		nt := c19NonTrivial(c)
